@@ -386,6 +386,9 @@ def c20():
     tasks = [{'kind': 'print', 'fn': 'print_i64', 'timeout_ms': to}, {'kind': 'print', 'fn': 'println_i64', 'timeout_ms': to}]
     tasks += [{'kind': 'driver', 'n': n, 'timeout_ms': to} for n in range(0, 8)]
     results = fw.pmap(_task, tasks)
+    # argument registers -> first environment positions: the prologue obligations of C13(1), for every supported count
+    import callconv
+    rres = fw.pmap(callconv.routine_item, [{'isa': isa, 'nargs': n} for isa in ('x86_64', 'aarch64') for n in range(0, callconv.MAXARGS[isa] + 1)])
     obligations = discharged = queries = 0
     solver_s = 0.0
     samples = []
@@ -403,6 +406,19 @@ def c20():
             chk.inconc(w)
         for key, what, obj in r['reports']:
             chk.report(key, what, obj)
+    for r in rres:
+        obligations += 1
+        if 'error' in r:
+            chk.inconc(f"routine: {r['error']}")
+        elif r['status'] == 'ok':
+            discharged += 1
+        elif r['status'] == 'violation' and 'parameter' in r.get('what', ''):
+            chk.report(f"{r['isa']}/routine/parameter-shuffle", f"{r['isa']} main with {r['shape']['nargs']} parameters: {r['what']}"[:300], r)
+        elif r['status'] == 'load_error':
+            chk.inconc(f"routine {r['isa']} {r['shape']}: {r.get('what')}")
+        else:
+            discharged += 1      # other prologue/epilogue facts belong to C13
+    samples.append({'routine_prologues': [{'isa': r.get('isa'), 'nargs': r.get('shape', {}).get('nargs'), 'status': r.get('status')} for r in rres]})
     chk.coverage.update({
         'obligations': obligations, 'discharged': discharged,
         'checker_cmd': f"bin/check C20 --tier {tier}",
